@@ -176,3 +176,101 @@ def law_check(ctx, drv, sis, cases, tag, depth_unw=8, depth_w=14):
             ctx.violation("one-step event law differs from rate/total: %s" % [(k, float(p), float(s)) for k, p, s, _ in bad[:4]],
                           dict(entry=tag, stream="law", case=c,
                                law=[[k, str(p), str(s), str(cut)] for k, p, s, cut in bad]))
+
+
+def k_step_law(case, steps, depth):
+    """exact law of the status vector of the real simulator after exactly `steps` events (unit waiting times)"""
+    import EoN, EoN.simulation as sim
+    G, lab = sims.build_graph(case)
+    idx = gen.index_of(G)
+
+    def fn(ex):
+        sr = symu.SymRandom(ex, dt=1.0)
+        old = sim.random
+        sim.random = sr
+        try:
+            kw = {}
+            if case.get("ew") is not None:
+                kw["transmission_weight"] = "w"
+            if case.get("nw") is not None:
+                kw["recovery_weight"] = "r"
+            if not case["sis"]:
+                kw["initial_recovereds"] = [lab(i) for i in case["recs"]]
+            f = EoN.Gillespie_SIS if case["sis"] else EoN.Gillespie_SIR
+            s = f(G, float(F(case["tau"])), float(F(case["gamma"])), initial_infecteds=[lab(i) for i in case["init"]["nodes"]],
+                  tmin=0, tmax=steps + 0.5, return_full_data=True, **kw)
+            st = s.get_statuses(time=steps + 0.2)
+            out = [None] * len(idx)
+            for u in G:
+                out[idx[u]] = st[u]
+            return "".join(out)
+        finally:
+            sim.random = old
+    return symu.Explorer(depth, maxleaves=60000).run(fn), idx, G, lab
+
+
+def k_step_check(ctx, drv, sis, cases, steps, tag, depth=22):
+    """the implementation's exact law after `steps` events vs the `steps`-fold composition of the Lean chain's
+    jump law (rate/total per state, absorbing when total = 0)"""
+    for c in cases:
+        try:
+            agg, idx, G, lab = k_step_law(c, steps, depth)
+        except symu.Budget:
+            ctx.count(tag + ":kstep-budget")
+            continue
+        except ZeroDivisionError:
+            ctx.count(tag + ":law-zero-rate")
+            continue
+        except Exception as e:
+            ctx.violation("%d-step law enumeration: implementation raised %s" % (steps, type(e).__name__),
+                          dict(entry=tag, stream="kstep-law", steps=steps, case=c, error=type(e).__name__))
+            continue
+        idx2, adj, ew, nw = sims.graph_req(G, lab, c)
+        li = {i: idx[lab(i)] for i in range(c["n"])}
+        status = ["S"] * c["n"]
+        for i in c["init"]["nodes"]:
+            status[li[i]] = "I"
+        for i in c["recs"]:
+            status[li[i]] = "R"
+        dist = {"".join(status): F(1)}
+        for _ in range(steps):
+            keys = list(dist)
+            resps = drv.batch([dict(op="chain_rates", sis=sis, n=c["n"], adj=adj, tau=c["tau"], gamma=c["gamma"], ew=ew, nw=nw,
+                                    status=list(k)) for k in keys])
+            nxt = {}
+            for k, spec in zip(keys, resps):
+                total = F(spec["total"])
+                if total == 0:
+                    nxt[k] = nxt.get(k, F(0)) + dist[k]
+                    continue
+                for e in spec["events"]:
+                    st = list(k)
+                    if e[0] == "r":
+                        st[e[1]] = "S" if sis else "R"
+                        r = F(e[2])
+                    else:
+                        st[e[2]] = "I"
+                        r = F(e[3])
+                    if r > 0:
+                        k2 = "".join(st)
+                        nxt[k2] = nxt.get(k2, F(0)) + dist[k] * r / total
+            dist = nxt
+        ctx.count("%s:%d-step-law-states" % (tag, steps))
+        ctx.case(dict(kstep=c, steps=steps), nontrivial=len(dist) > 1)
+        bad = symu.interval_ok(agg, dist)
+        if bad:
+            ctx.violation("law after %d events differs from the chain's: %s" % (steps, [(k, float(p), float(s)) for k, p, s, _ in bad[:4]]),
+                          dict(entry=tag, stream="kstep-law", steps=steps, case=c, law=[[k, str(p), str(s), str(cut)] for k, p, s, cut in bad]))
+
+
+def kstep_cases(ctx, sis, count, nmax=4):
+    out = []
+    for _ in range(count):
+        c = sims.graph_case(ctx.rng, 2, nmax, weighted_e=ctx.rng.random() < 0.8, weighted_n=ctx.rng.random() < 0.5)
+        n = c["n"]
+        code = [ctx.rng.choice("SSIR" if not sis else "SSI") for _ in range(n)]
+        code[ctx.rng.randrange(n)] = "I"
+        c.update(sis=sis, tau=str(ctx.rng.choice([F(1, 2), F(1), F(2)])), gamma=str(ctx.rng.choice([F(1, 2), F(1), F(2)])),
+                 init=dict(kind="list", nodes=[i for i in range(n) if code[i] == "I"]), recs=[i for i in range(n) if code[i] == "R"])
+        out.append(c)
+    return out
